@@ -228,6 +228,34 @@ CHECKS = {
         design_ref="DESIGN.md section 5, C15",
         note=NOTE_COMMON + "Known finding D9: on SQL the arrange verb is not used as the order of a window function without arrange= (documented notation).",
     ),
+    "C12": dict(
+        technique="Lean 4 proof: per-operator value-family theorems over the reference semantics plus kernel-decided return-type families of the regenerated "
+                  "operator catalogue; model typing tied by front-end correspondence, values by frame comparison; schema oracle on the real exports",
+        text="Pdt/Props/C12.lean, value side (all operands): comparisons_bool, boolean_ops_bool, int_arith / float_arith (arithmetic keeps the numeric family), "
+             "truediv_float, floordiv_mod_int, bool_add_is_int, fill_null_fam, coalesce_fam, horizontal_minmax_fam, pickRow_fam (case returns a branch value or the "
+             "default), count_is_int_never_null, sum_int, min_max_fam, any_all_bool, mean_is_float, row_number_int, cast_to_int / cast_to_float / cast_int_to_string / "
+             "cast_null. Type side (decide +kernel over every signature of the regenerated catalogue): bool_valued_ops, family_preserving_ops (only widening: "
+             "bool + bool -> int), float_valued_ops, int_valued_ops, sum_sigs, string_valued_ops. Oracle on the real code: dtype() of every visible column vs the "
+             "exported Polars schema (exact on Polars, numeric family on SQLite), only all-null columns Null-typed, Table(exported frame) and collect() reproduce "
+             "the types. Partial: expression-level soundness is assembled from these lemmas through the typing correspondence rather than proved as one induction; "
+             "temporal / decimal / list columns are outside the generated programs.",
+        design_ref="DESIGN.md section 5, C12",
+        note=NOTE_COMMON + "D60 (Bool expression exported as Int64 from SQLite) was repaired in /repo.",
+    ),
+    "C10": dict(
+        technique="Lean 4 proof: frame theorem over a heap model of the copy-then-rebind discipline of preprocess_arg / map_children, tied to the code by "
+                  "running the real preprocess_arg on generated expression objects against the executable model; object-graph fingerprint oracle for the rest",
+        text="Pdt/Model/Heap.lean models objects with identity (ColFn nodes pointing to a list object and a context-kwargs dict object, leaves), shallow copies that "
+             "share containers, field re-binding and in-place container writes. Pdt/Props/C10.lean: pre_frame (for every heap, expression, depth, sharing and grouping "
+             "state no object that existed before the call is changed), pre_keeps_argument, pre_result_fresh, and D6_regression (the pre-repair in-place dict write is "
+             "not a frame). Tie: preprocess_arg is run on generated ColFn trees over grouped / ungrouped tables, with agg_is_window on and off; what it wrote, shared and "
+             "allocated is compared with the model's run on the same tree. Partial: the remainder of the property is about the Python object model and is decided on "
+             "the real code only: deep fingerprints of every table, cache, AST node, expression object and source frame around every verb, export (twice, and again at "
+             "the end of the history) and query build on Polars, SQLite and the SQL Server dialect compiler; one expression object reused under different group_by states "
+             "and in mutate and summarize vs fresh objects; source frames and database tables unchanged.",
+        design_ref="DESIGN.md section 5, C10",
+        note=NOTE_COMMON + "D6 (partition_by written into the user's expression object) was repaired in /repo. Memoised _dtype / _ftype (None -> value) are not counted as changes.",
+    ),
 }
 
 NOT_YET = "check not built yet in this revision of /verif (model and theorems planned in DESIGN.md section 5)"
